@@ -174,6 +174,9 @@ def run(R):
         R.gate_reject("C06.verify.ops", ver, RetSink("Ok"),
                       [CallGuard([RG + "::check_register_op"], ("Ok",), "check_register_op(op) is Ok"), OrWrapperGuard(F, _SizeGuard(F), RG + "::check_register_op")],
                       descr="verify() is Ok only if every op is permitted and within the size limit")
+        from rules import ForallGuard
+        R.gate("C06.verify.ops.every", ver, RetSink("Ok"), [[ForallGuard("ops", [RG + "::check_register_op"], ("Ok",), "every op of the register passed check_register_op")]],
+               descr="verify() is Ok only after *every* op was checked (none is skipped)")
     # (5) limit agreement
     if add is not None and ver is not None:
         prep(add); prep(ver)
